@@ -89,12 +89,12 @@ class Run:
         self.notes.append(text)
 
     def floor(self, rid, minimum):
-        """non-vacuity: a rule that matched nothing has lost its anchors (fail closed, exit 2).  `minimum` is the instance count
+        """non-vacuity: a rule that matched nothing has lost its anchors (fail closed: reported as a violation).  `minimum` is the instance count
         confirmed by hand on the pinned tree; fewer (but some) instances happen under behaviour-preserving refactors (two call sites
         merged into one helper), so that case is recorded in the evidence instead of failing the check."""
         n = self.rules.get(rid, {}).get("instances", 0)
         if n == 0:
-            raise EngineError("rule %s matched no instance (pinned tree: %d): its anchors are gone" % (rid, minimum))
+            raise AnchorMissing("rule %s matched no instance (pinned tree: %d): its anchors are gone" % (rid, minimum))
         if n < minimum:
             self.note("rule %s matched %d instances (pinned tree: %d)" % (rid, n, minimum))
 
